@@ -802,7 +802,7 @@ fn overflow_counter_with_feedback(rep: &mut Report) {
 /// C01 / C04 with the smallest legal configuration: a flush interval of 1 ns (the builder accepts
 /// anything above zero) on a REAL queue with its writer thread. Fixed scenario with real time: 15
 /// entries appended to a live queue (capacity 64, nothing overflows) reach the stream, in order,
-/// and a flush request completes, within 5 s - orders of magnitude more than the microseconds
+/// and a flush request completes, within 30 s - orders of magnitude more than the microseconds
 /// this takes; a writer that never gets to its drain pass is what the bound is for.
 fn smallest_flush_interval(rep: &mut Report, prop: &str) {
     let seen = Arc::new(Mutex::new(Vec::new()));
@@ -820,21 +820,21 @@ fn smallest_flush_interval(rep: &mut Report, prop: &str) {
         futures_block_on(fut);
         let _ = tx.send(());
     });
-    let flushed = rx.recv_timeout(std::time::Duration::from_secs(5)).is_ok();
+    let flushed = rx.recv_timeout(std::time::Duration::from_secs(30)).is_ok();
     let got = seen.lock().unwrap().clone();
     let expect: Vec<u64> = (0..15).collect();
-    rep.set("writer_model_flush_interval_1ns", json!({"appended": 15, "reached_the_stream_within_5s": got.len(), "flush_request_completed_within_5s": flushed}));
+    rep.set("writer_model_flush_interval_1ns", json!({"appended": 15, "reached_the_stream_within_30s": got.len(), "flush_request_completed_within_30s": flushed}));
     if prop == "C01" && got != expect {
         rep.violation(
             "writer:live-queue-does-not-deliver:flush-interval-1ns",
-            format!("flush_interval(1 ns), capacity 64: 15 entries appended to the live queue, after 5 s the stream has seen {got:?}"),
+            format!("flush_interval(1 ns), capacity 64: 15 entries appended to the live queue, after 30 s the stream has seen {got:?}"),
             json!({"flush_interval_ns": 1, "capacity": 64, "appended": 15, "reached_the_stream": got}),
         );
     }
     if prop == "C04" && !flushed {
         rep.violation(
             "writer:flush-request-never-completes:flush-interval-1ns",
-            "flush_interval(1 ns), capacity 64: a flush request made after 15 appends has not completed after 5 s".to_string(),
+            "flush_interval(1 ns), capacity 64: a flush request made after 15 appends has not completed after 30 s".to_string(),
             json!({"flush_interval_ns": 1, "capacity": 64, "appended": 15, "reached_the_stream": got}),
         );
     }
